@@ -40,6 +40,11 @@ CHECKS = {
                   "Tie: after every step of histories over 73 operation kinds (result token + fingerprint per step, full snapshot at the end): all histories of length <= 2 (quick) / 3 (thorough) over a fixed 40-operation alphabet on three seed structures, random histories to length 200, out-of-range paths and indices, rejected texts and non-finite numbers; par_ twins under pools 1-16.",
              note="A Rust panic (Vec::remove / insert out of range) is modelled as `none` and the history stops there on both sides; state after a panic is not compared. Element inference inside Atom::new is outside this property (atoms enter the model as constructed).",
              technique="Lean 4 theorems over list functions (filter/eraseP/flatMap) + step-by-step differential correspondence of operation histories", ref="DESIGN §7 C10"),
+ 'C18': dict(text="Theorems: validate (mirrored push by push, incl. the index loop of validate_models) equals the declarative rule list in order and multiplicity; 'No Atoms' iff no atom; one correspondence diagnostic per differing position; Atom::corresponds is exactly equality on serial, name, element, charge and tensor presence; "
+                  "validate_pdb = validate ++ column diagnostics; exactly one diagnostic per atom value outside its column; no column diagnostic iff every value lies in the documented range (both ends). "
+                  "Tie: 0-4 models of equal or different shape, atoms differing in one field, every validated field at / inside / outside both ends; diagnostics compared in order with the model; oracle = independent transcription of the documented rules.",
+             note="Ranges are in units of 1e-6 on decimal-exact values; the relation 'fits its column iff the C03 field round trip is the identity' is part of C03.",
+             technique="Lean 4 theorems (loop = zip specification, nil-iff-in-range) + differential correspondence", ref="DESIGN §7 C18"),
 }
 NOT_APPLICABLE = {}
 ALL = ['C%02d' % i for i in range(1, 19)]
